@@ -146,7 +146,13 @@ impl Setsum {
             let idx = col * SETSUM_BYTES_PER_COLUMN;
             let mut buf = [0u8; 4];
             buf.clone_from_slice(&digest[idx..idx + 4]);
-            *item = u32::from_le_bytes(buf);
+            let num = u32::from_le_bytes(buf);
+            // Keep every column below its prime; add_state and invert_state rely upon it.
+            *item = if num >= SETSUM_PRIMES[col] {
+                num - SETSUM_PRIMES[col]
+            } else {
+                num
+            };
         }
         Self { state }
     }
